@@ -65,8 +65,8 @@ prop("C15",
      trace=("Trace_Schema", "Trace_Schema.cfg"),
      required=["Check:clean", "Check:errors", "build:lit", "build:api"],
      level_text="TLC checks an operational transcription of the Check loop against the declarative set of offending "
-                "relationships over every schema of a bounded universe (130k two-type schemas with two relationship "
-                "names; 52k three-type schemas in the thorough tier), emits each of those schemas, and the driver "
+                "relationships over every schema of a bounded universe (a few hundred thousand two-type schemas with two "
+                "relationship names, a universe with empty and foreign FromType values; three-type schemas in the thorough tier), emits each of those schemas, and the driver "
                 "builds it as a literal jsonapi.Schema and calls the real Check; TLC's monitor judges the number of "
                 "errors, that the schema is unchanged and that nothing panicked. Seeded random 3-5 type schemas "
                 "with injected single faults are judged by the same monitor.",
@@ -209,7 +209,7 @@ prop("C09",
      required=["impl:soft", "impl:wrap", "impl:mixed", "coll:resources", "coll:soft", "coll:wrapcol", "rules",
                "filtered", "ids", "nonempty-page", "big", "huge-size", "long-id-list", "kind:uint64", "kind:*bytes", "kind:*time", "kind:bool"],
      level_text="An operational Range in TLA+ (select, filter with the C10 specification, stable sort by the rules, "
-                "page) is model-checked against the declarative RangeOK over 41,796 cases (all value assignments of "
+                "page) is model-checked against the declarative RangeOK over some forty thousand cases (all value assignments of "
                 "three resources incl. nil, 43 rule lists, sizes 0-3, filters, id lists, all six input orders). The "
                 "driver generates seeded cases over all 28 kinds, soft / wrapped / mixed resources, the three "
                 "collection implementations, asks the real Range for every page for several input orders, and "
@@ -273,7 +273,7 @@ _doc_common = dict(
     coverage=False,
 )
 prop("C02", driver=_doc,
-     level_text="TLC model-checks an operational MarshalDocument/Include over 28,752 documents (structure, selection, "
+     level_text="TLC model-checks an operational MarshalDocument/Include over some thirty-five thousand documents (structure, selection, "
                 "no leak, unique linkage); the driver builds seeded documents of every primary-data kind and "
                 "container with the real library, marshals, unmarshals against the same schema and projects both "
                 "sides; TLC's monitor judges RoundTrip: same shape, same resources in order with equal selected "
@@ -333,8 +333,8 @@ prop("C07",
                 "type (only its fields or id, no duplicate, all fields by default), inclusion paths as chains of the "
                 "schema's relationships with every valid requested path kept unless a longer requested one extends "
                 "it, sorting rules keeping the caller's valid rules in order and containing id - and an intended "
-                "parser; TLC checks the parser against it on 4,112 requests and emits the component vocabularies "
-                "(16 paths, 13 field selections, 13 rule lists, 17 include lists, filter and page classes). The "
+                "parser; TLC checks the parser against it on some ten thousand requests and emits the component vocabularies "
+                "(paths, field selections, rule lists, include lists, filter and page classes; the counts are in the evidence file). The "
                 "driver renders every component against every path, seeded combinations of all of them and mutated "
                 "raw texts (malformed escapes, stray separators) in several encodings, parameter orders and split "
                 "forms, calls NewURLFromRaw under recover on soft and struct-backed schemas, and TLC judges each "
@@ -376,7 +376,7 @@ prop("C20",
                 "value of its type, Set of the id and MarshalResource under recover, and TLC judges: accepted => no "
                 "panic and built type = wrapper type = Expected; rejected => BuildType errs and Wrap refuses.",
      level_note="reflect.StructOf cannot declare named field types or methods (not needed by the property). Quick: all "
-                "shapes with <=1 field (1,950); thorough: adds a seeded sample of the two-field shapes.",
+                "shapes with <=1 field and the listed two-field families (a few thousand); thorough: adds a seeded sample of the two-field shapes.",
      assumptions=["exported fields only", "Check is called on a value of the struct type; Wrap and BuildType on pointer and value"],
      coverage=False,
      )
